@@ -1,19 +1,20 @@
 #!/usr/bin/env python3
 """Generates first-order syntactic mutants of the repository files the properties are anchored in.
-usage: mutate.py <outdir> [max_per_file]
+usage: mutate.py <outdir> [max_per_file] [seed]
 Each mutant is a unified diff <outdir>/<n>.diff plus one line in <outdir>/index.tsv: n, file, line, operator, checks.
 The mutants are evaluated by tools/run_mutants.sh (build, repository test suite, then the mapped checks)."""
 import os, re, subprocess, sys, random
 REPO = '/repo'
 out = sys.argv[1]; cap = int(sys.argv[2]) if len(sys.argv) > 2 else 12
+SEED = int(sys.argv[3]) if len(sys.argv) > 3 else 7
 FILES = {
- 'mtproto.go': 'C09 C10 C11 C16 C17', 'network.go': 'C09 C10 C11', 'handshake.go': 'C06 C07', 'errors.go': 'C17',
- 'mtproto_utils.go': 'C11 C12 C09', 'internal/encoding/tl/encoder.go': 'C01 C02', 'internal/encoding/tl/decoder.go': 'C01 C15',
+ 'mtproto.go': 'C10 C11 C16 C17 C06 C07 C09 C13', 'network.go': 'C10 C11 C16 C06 C09 C13', 'handshake.go': 'C06 C07 C11', 'errors.go': 'C17 C16',
+ 'mtproto_utils.go': 'C11 C12 C16 C06 C09', 'internal/encoding/tl/encoder.go': 'C01 C02', 'internal/encoding/tl/decoder.go': 'C01 C15',
  'internal/encoding/tl/cursor_w.go': 'C01 C02', 'internal/encoding/tl/cursor_r.go': 'C01 C15', 'internal/aes_ige/aes.go': 'C05 C03 C06',
  'internal/aes_ige/ige_cipher.go': 'C05 C03 C04', 'internal/mode/arbiged.go': 'C08', 'internal/mode/intermediate.go': 'C08', 'internal/mode/mode.go': 'C08',
- 'internal/transport/transport.go': 'C08 C04 C03', 'internal/mtproto/messages/messages.go': 'C03 C04', 'internal/mtproto/objects/types.go': 'C01 C02 C09 C15',
+ 'internal/transport/transport.go': 'C08 C04 C03 C06 C16', 'internal/mtproto/messages/messages.go': 'C03 C04 C06 C16', 'internal/mtproto/objects/types.go': 'C01 C02 C09 C15',
  'internal/session/file.go': 'C12', 'telegram/deeplinks/resolver.go': 'C20', 'telegram/deeplinks/utils.go': 'C20', 'telegram/deeplinks/template.go': 'C20',
- 'telegram/internal/srp/2fa.go': 'C18', 'internal/math/math.go': 'C06 C19', 'internal/utils/sync_stuff.go': 'C09 C10', 'internal/utils/utils.go': 'C10 C03',
+ 'telegram/internal/srp/2fa.go': 'C18', 'internal/math/math.go': 'C06 C19', 'internal/utils/sync_stuff.go': 'C10 C11 C16 C09', 'internal/utils/utils.go': 'C10 C03',
  'internal/cmd/tlgen/tlparser/parser.go': 'C14', 'internal/cmd/tlgen/gen/tl_gen_structs.go': 'C14', 'internal/cmd/tlgen/gen/schema.go': 'C14',
  'internal/encoding/tl/common_types.go': 'C19 C01',
 }
@@ -26,8 +27,13 @@ OPS = [
  ('lock', r'^\s*(defer )?\w[\w.]*\.(R?Lock|R?Unlock)\(\)\s*$', '__DELETE__'),
  ('return', r'^(\s*)return err$', r'\1return nil'),
  ('neg', r'if !(\w)', r'if \1'),
+ ('slice', r'\[(\w*):(\w+)\]', r'[\1:\2-1]'), ('slice', r'\[(\w+):(\w*)\]', r'[\1+1:\2]'),
+ ('incr', r'\+= 2\b', '+= 1'), ('incr', r'\+= 1\b', '+= 2'), ('incr', r'(\w)\+\+$', r'\1 += 2'),
+ ('len', r'len\((\w+)\)(?! *[-+])', r'len(\1)-1'),
+ ('cond', r'^(\s*)if (?!err )(.+) \{$', r'\1if true {'), ('cond', r'^(\s*)if (?!err )(.+) \{$', r'\1if false {'),
+ ('stmt', r'^\s*\w[\w.]*\.(Delete|Add)\(.*\)\s*$', '__DELETE__'),
 ]
-random.seed(7)
+random.seed(SEED)
 os.makedirs(out, exist_ok=True)
 idx = open(os.path.join(out, 'index.tsv'), 'w')
 n = 0
